@@ -75,6 +75,10 @@ class PyMachine:
         for off, data in R.imem_init(sc):
             for i, b in enumerate(data):
                 mem.write_byte(INT + off + i, b)
+        if sc.get("fast"):
+            # documented execution mode of PCE500Emulator.step ("Minimal execution path for speed"): a public attribute
+            # that pce500/run_pce500.py and pce500/cli.py switch on (default for the LLAMA backend and for long runs)
+            emu.fast_mode = True
         if sc.get("kbirq") is not None:
             # keyboard-interrupt enable of the machine: a snapshot field restored by load_snapshot(); set directly
             # the way pce500/tests/test_snapshot_roundtrip.py does
